@@ -977,6 +977,7 @@ func TestVerifC54(t *testing.T) {
 
 	idx := 0
 	stop := false
+	only := os.Getenv("C54_ONLY") // debugging aid: run one family
 	famN := map[string]int{}
 	famT := map[string]time.Duration{}
 	famE := map[string]int{}
@@ -984,7 +985,7 @@ func TestVerifC54(t *testing.T) {
 	runCase := func(family string, reqs []*c54req) {
 		idx++
 		famE[family[:1]]++
-		if stop || !r.Mine(idx) {
+		if stop || !r.Mine(idx) || (only != "" && family[:1] != only) {
 			return
 		}
 		id := c54caseID(family, reqs)
@@ -1215,17 +1216,28 @@ func TestVerifC54(t *testing.T) {
 	}
 
 	// ---- family B: body length x content x backend chunking x level x flush size.
+	//      (brotli levels >= 6 allocate tens of MB per response: they get the reduced grid
+	//      "text body, whole/flush-sized reads" outside the thorough tier's main flush sizes.)
 	contents := []byte{'t', 'z', 'r', 'g'}
 	framings := []string{"cl", "chunked", "close", "h10"}
 	for _, ru := range c54allRules() {
 		f := ru.f
+		lv := (ru.cmd == "GZIP" && (ru.q == -1 || ru.q == 0)) || (ru.cmd == "BROTLI" && (ru.q == 0 || ru.q == 5))
+		lv2 := lv || (ru.cmd == "GZIP" && (ru.q == -2 || ru.q == 9)) || (ru.cmd == "BROTLI" && ru.q == 11)
+		heavy := ru.cmd == "BROTLI" && ru.q >= 6
+		reduced := false
 		if !thorough {
-			// quick: every level at flush 64; six levels at 4096; two levels at the other sizes
-			lv := (ru.cmd == "GZIP" && (ru.q == -1 || ru.q == 0)) || (ru.cmd == "BROTLI" && (ru.q == 0 || ru.q == 5))
-			lv2 := lv || (ru.cmd == "GZIP" && ru.q == -2) || (ru.cmd == "BROTLI" && ru.q == 11)
+			// quick: every level at flush 64; six levels at 4096; four levels at the other sizes
 			if !(f == 64 || (f == 4096 && lv2) || lv) {
 				continue
 			}
+			reduced = heavy || (ru.cmd == "BROTLI" && (ru.q == 3 || ru.q == 4))
+		} else {
+			// thorough: every level at 64 and 4096; six levels at the other sizes
+			if !(f == 64 || f == 4096 || lv2) {
+				continue
+			}
+			reduced = heavy && f != 64
 		}
 		lens := []int{0, 1, 2, f - 1, f, f + 1, 2*f - 1, 2 * f, 2*f + 1, 3*f + 5}
 		if thorough {
@@ -1233,6 +1245,9 @@ func TestVerifC54(t *testing.T) {
 		}
 		for _, n := range lens {
 			for _, kind := range contents {
+				if reduced && kind != 't' {
+					continue
+				}
 				body := c54body(kind, n)
 				bodyID := fmt.Sprintf("%c%d", kind, n)
 				ks := []int{0, 1, f - 1, f, f + 1, 2*f + 1}
@@ -1247,19 +1262,19 @@ func TestVerifC54(t *testing.T) {
 					if kind == 'g' && (k != 0 || n > f+1) {
 						continue
 					}
-					if !thorough && kind != 't' && !main {
+					if (!thorough && kind != 't' || reduced) && !main {
 						continue
 					}
 					for _, fm := range framings {
-						if !thorough && fm == "h10" {
+						if fm == "h10" && (!thorough || !main) {
 							continue
 						}
 						for _, eofWith := range []bool{false, true} {
-							if eofWith && !main && !thorough {
+							if eofWith && (reduced || (!main && !thorough)) {
 								continue
 							}
 							for _, nobuf := range []bool{false, true} {
-								if nobuf && (!main || (!thorough && kind != 't')) {
+								if nobuf && (!main || reduced || (!thorough && kind != 't')) {
 									continue
 								}
 								fr := c54fragSpec{hdrSep: k != 0, k: k, eofWith: eofWith}
@@ -1286,7 +1301,7 @@ func TestVerifC54(t *testing.T) {
 			if ru.cmd == "GZIP" && ru.q != -2 && ru.q != -1 && ru.q != 0 && ru.q != 1 && ru.q != 9 {
 				continue
 			}
-			if ru.cmd == "BROTLI" && ru.q != 0 && ru.q != 4 && ru.q != 5 && ru.q != 9 && ru.q != 11 {
+			if ru.cmd == "BROTLI" && ru.q != 0 && ru.q != 5 && ru.q != 11 {
 				continue
 			}
 		}
@@ -1295,7 +1310,7 @@ func TestVerifC54(t *testing.T) {
 				continue
 			}
 			for _, kind := range []byte{'z', 't', 'r'} {
-				if ru.cmd == "BROTLI" && ru.q >= 10 && kind != 't' && !thorough {
+				if ru.cmd == "BROTLI" && ru.q >= 6 && kind != 't' && (!thorough || ru.f == 4095) {
 					continue
 				}
 				body := c54body(kind, n)
